@@ -319,8 +319,11 @@ type Sys struct {
 }
 
 type callerInfo struct {
-	who   string
-	rules acl.Rules
+	who    string
+	rules  acl.Rules
+	useRaw bool // answer with raw/err as given (Http.tla whois classes)
+	raw    *apitype.WhoIsResponse
+	err    error
 }
 
 // addrFor registers (who, rules) under a stable remote address; WhoIs answers from it.
@@ -439,6 +442,9 @@ func (s *Sys) whois(ctx context.Context, addr string) (*apitype.WhoIsResponse, e
 	s.whoMu.Unlock()
 	if !ok {
 		return nil, fmt.Errorf("whois: unknown address %s", addr)
+	}
+	if ci.useRaw {
+		return ci.raw, ci.err
 	}
 	var raws []tailcfg.RawMessage
 	for _, r := range ci.rules {
